@@ -148,18 +148,20 @@ FIELD_SUFFIX = ""       # JSON scenarios use "x": see known finding C10 unquoted
 FINITE_ONLY = False      # JSON scenarios: the property excludes Inf as well as NaN
 
 
-def fix_scalar_bytes(t, data):
+def fix_scalar_bytes(t, data, keep_negzero=False):
     """make raw bytes a legal, comparable value of the type: bool 0/1, no NaN (payloads do not survive by-value passing)"""
     if t == "bool": return bytes([data[0] & 1])
     if t == "float":
         u = struct.unpack("<I", data)[0]
         if (u >> 23) & 0xff == 0xff and (u & 0x7fffff or FINITE_ONLY): u &= ~(0xff << 23) | (0x7f << 23); u &= 0xffffffff
-        if FINITE_ONLY and u == 0x80000000: u = 0x80000001       # -0.0: see known finding negative-zero (a deterministic case covers it)
+        # -0.0 in a table field whose default is +0.0: see known finding C03 negative-zero-elided (a deterministic case covers it);
+        # vector elements and fields with another default or none keep it: it is stored, printed as -0 and must come back as -0.0
+        if FINITE_ONLY and u == 0x80000000 and not keep_negzero: u = 0x80000001
         return struct.pack("<I", u)
     if t == "double":
         u = struct.unpack("<Q", data)[0]
         if (u >> 52) & 0x7ff == 0x7ff and (u & ((1 << 52) - 1) or FINITE_ONLY): u &= ~(1 << 52) & 0xffffffffffffffff
-        if FINITE_ONLY and u == 1 << 63: u |= 1
+        if FINITE_ONLY and u == 1 << 63 and not keep_negzero: u |= 1
         return struct.pack("<Q", u)
     return data
 
@@ -326,7 +328,7 @@ class Prog:
                 k = f["kind"]
                 if k == "s":
                     ft = self.ty.ftype[(n.ti, f["id"])]
-                    v.cdata = fix_scalar_bytes(ft["t"], v.data) if ft["kind"] == "scalar" else v.data
+                    v.cdata = fix_scalar_bytes(ft["t"], v.data, ft.get("optional") or ft.get("default") != 0) if ft["kind"] == "scalar" else v.data
                     if ft["kind"] == "scalar" and ft.get("enum") == "F64":
                         # a random 64-bit pattern is never a set of declared flags: one flag, several flags on both sides of bit 31, an undeclared bit, none
                         combos = [1, 2, 1 << 32, 1 << 63, 3, 1 | 1 << 63, 1 << 32 | 1 << 63, 2 | 1 << 32, 3 | 1 << 32 | 1 << 63, 3 | 1 << 63, 1 << 40, 1 | 1 << 40, 0]
@@ -339,7 +341,7 @@ class Prog:
                     esz = f["a"]
                     d = v.data[:len(v.data) - len(v.data) % esz]
                     if ft["kind"] == "svec":
-                        d = b"".join(fix_scalar_bytes(ft["t"], d[j:j + esz]) for j in range(0, len(d), esz))
+                        d = b"".join(fix_scalar_bytes(ft["t"], d[j:j + esz], True) for j in range(0, len(d), esz))
                     v.cdata = d
                 elif k in ("t",): self.prep_values(v)
                 elif k in ("tv",):
@@ -397,8 +399,15 @@ class Prog:
         v = self.nt("t")
         pend = []     # (field, value, ref expr) to add after start for bottom-up
         if style == 0:
-            for (f, val) in n.fields:
+            fields = self.in_create_order(ti, n.fields) if self.by_args_ok(ti, n.fields, force) else n.fields
+            for (f, val) in fields:
                 pend.append((f, val, self.build_child(o, ti, f, val, style, refs, force)))
+            args = self.create_args(o, ti, pend, force) if getattr(self, "by_args", False) else None
+            if args is not None:
+                o.append("%s_ref_t %s = %s_create(B%s); if (!%s) return -1;" % (T, v, T, "".join(", " + a for a in args), v))
+                self.n_by_args = getattr(self, "n_by_args", 0) + 1
+                refs[id(n)] = v
+                return v
             o.append("%s_ref_t %s; if (%s_start(B)) return -1;" % (T, v, T))
             for (f, val, ref) in pend: self.add_field(o, ti, f, val, ref, style, force)
         else:
@@ -410,6 +419,53 @@ class Prog:
         o.append("%s = %s_end(B); if (!%s) return -1;" % (v, T, v))
         refs[id(n)] = v
         return v
+
+    def by_args_ok(self, ti, fields, force):
+        if force or not getattr(self, "by_args", False): return False
+        decl = self.ty.tables[ti]
+        byid = {f["id"]: val for (f, val) in fields}
+        if len(byid) != len(decl) or any(f["id"] not in byid for f in decl): return False
+        if any(f["kind"] in ("nt", "ns") or (f["kind"] == "u" and byid[f["id"]].type == 0) for f in decl): return False
+        # children are created in the order of the arguments' alignment classes: a reference to a shared object must not overtake its target
+        return not any(self.has_ref(val) for (f, val) in fields)
+
+    def has_ref(self, n):
+        return n.k == "r" or any(self.has_ref(c) for c in children(n))
+
+    def in_create_order(self, ti, fields):
+        order = {i: k for k, i in enumerate(self.create_order(ti))}
+        return sorted(fields, key=lambda t: order[t[0]["id"]])
+
+    def create_order(self, ti):
+        """the order in which the generated <T>_create adds its arguments (align_order_members in semantics.c): by alignment class, largest
+        first (256 shares the class of 128), declaration order within a class; references and unions count as offsets"""
+        def cls(f):
+            k = f["b"] if f["kind"] == "s" else 4
+            return min(7, max(1, k).bit_length() - 1)
+        decl = self.ty.tables[ti]
+        return [f["id"] for _, f in sorted(enumerate(decl), key=lambda t: (-cls(t[1]), t[0]))]
+
+    def create_args(self, o, ti, pend, force):
+        """arguments of the generated <T>_create in declaration order, or None when the node cannot be built that way (a field absent: a null
+        reference makes <T>_create fail; force_add has no by-argument form; nested buffers are left to the other styles)"""
+        if not self.by_args_ok(ti, [(f, val) for (f, val, ref) in pend], force): return None
+        decl = self.ty.tables[ti]
+        byid = {f["id"]: (val, ref) for (f, val, ref) in pend}
+        args = []
+        for f in decl:
+            val, ref = byid[f["id"]]
+            k = f["kind"]
+            if k == "s":
+                ft = self.ty.ftype[(ti, f["id"])]
+                if ft["kind"] == "scalar": args.append(scalar_value(ft["t"], val.cdata))
+                else:
+                    S = "g_" + sname(f["a"], f["b"]); x = self.nt("sa")
+                    d, dl = self.bytes_lit(val.data); o.append(dl)
+                    o.append("%s_t %s; memcpy(%s.d, %s, %d);" % (S, x, x, d, f["a"]))
+                    args.append("&" + x)
+            elif k == "u": args.append("g_U%d_as_M%d(%s)" % (f["a"], val.type, ref))
+            else: args.append(ref)
+        return args
 
     def add_inplace(self, o, ti, f, val, style, refs, force):
         """style 1/2: field-specific start/end, create, push variants of the generated table field API"""
@@ -578,7 +634,11 @@ class Prog:
         if n.k == "r": return N("r", target=m[id(n.target)])
         if n.k == "T":
             fs = []
-            for (f, v) in n.fields:
+            fields, utypes = n.fields, None
+            if id(n) != getattr(self, "_root_id", None) and self.by_args_ok(n.ti, fields, force):
+                # <T>_create: arguments in alignment order, union values in place, union types after everything else
+                fields, utypes = self.in_create_order(n.ti, fields), []
+            for (f, v) in fields:
                 k = f["kind"]
                 if k == "s":
                     ft = self.ty.ftype[(n.ti, f["id"])]
@@ -588,11 +648,11 @@ class Prog:
                 elif k == "u":
                     if v.type == 0: continue      # <T>_<f>_add with NONE stores nothing
                     # generated <T>_<f>_add: the type field first, then the value (flatcc_builder_table_add_union does the reverse)
-                    fs.append((dict(id=f["id"] - 1, kind="s"), N("i", size=1, align=1, data=bytes([v.type]))))
+                    (fs if utypes is None else utypes).append((dict(id=f["id"] - 1, kind="s"), N("i", size=1, align=1, data=bytes([v.type]))))
                     fs.append((dict(id=f["id"], kind="uval"), self.lower(v.value, force, m, style)))
                 elif k == "v": fs.append((f, N("v", esz=v.esz, align=v.align, data=v.cdata)))
                 else: fs.append((f, self.lower(v, force, m, style)))
-            x = N("T", ti=n.ti, fields=fs)
+            x = N("T", ti=n.ti, fields=fs + (utypes or []))
         elif n.k == "o": x = N("o", items=[self.lower(c, force, m, style) for c in n.items])
         elif n.k == "U": x = N("U", type=n.type, value=self.lower(n.value, force, m, style), member=n.member)
         elif n.k == "W": x = N("W", items=[(t, self.lower(c, force, m, style), mm) for (t, c, mm) in n.items])
@@ -607,6 +667,8 @@ class Prog:
         self.prep_values(tree)
         self.mark_shared(tree)
         self.lowered = getattr(self, "lowered", [])
+        if style != 0: self.by_args = False
+        self._root_id = id(tree)
         self.lowered.append(self.lower(tree, force, None, style))
         self.meta = getattr(self, "meta", [])
         self.meta.append((root_ti, with_size, typed, fresh))
